@@ -172,7 +172,7 @@ func (t *table) insert(data []byte, isFollower bool, h hash.Hash32, offset wal.O
 
 // Skip informs the table of a new offset so that we can store it
 func (t *table) skip(offset wal.Offset, source int) {
-	t.rowStore.insert(&insert{nil, nil, nil, offset, source})
+	t.rowStore.insert(&insert{nil, nil, nil, offset, source, nil})
 }
 
 func (t *table) doInsert(ts time.Time, dims bytemap.ByteMap, vals bytemap.ByteMap, offset wal.Offset, source int) bool {
@@ -256,13 +256,24 @@ func (t *table) doInsert(ts time.Time, dims bytemap.ByteMap, vals bytemap.ByteMa
 
 	t.db.capMemorySize(true)
 	inserted := len(additionalVals)
+	// All inserts of one point go to the row store as one unit: they share the point's WAL
+	// offset, and a flush between them would persist that offset with only part of the point.
+	var first *insert
 	if hasMainValue {
-		t.rowStore.insert(&insert{key, encoding.NewTSParams(ts, mainVals), dims, offset, source})
+		first = &insert{key, encoding.NewTSParams(ts, mainVals), dims, offset, source, nil}
 		inserted++
 	}
 	for _, subVals := range additionalVals {
 		verifEvent("insert.sub", t.Name)
-		t.rowStore.insert(&insert{key, encoding.NewTSParams(ts, subVals), dims, offset, source})
+		next := &insert{key, encoding.NewTSParams(ts, subVals), dims, offset, source, nil}
+		if first == nil {
+			first = next
+		} else {
+			first.more = append(first.more, next)
+		}
+	}
+	if first != nil {
+		t.rowStore.insert(first)
 	}
 	t.statsMutex.Lock()
 	t.stats.InsertedPoints += int64(inserted)
